@@ -53,7 +53,8 @@ ValQE(f, v, nativeCidr) ==     \* [st |-> "ok"|"fail"|"unspec", e |-> QExpr]
             ELSE LET n == V4OfText(v.s)
                      bs == SetToSeqD(RefV4Blocks(n.net, n.p))
                  IN  ok(QOr([k \in 1..Len(bs) |-> QLeaf(StrAtom(f, FALSE, BlockText(bs[k])))])))
-      [] v.t = "cmp" -> ok(QLeaf(MkAtom(f, "cmp", ReduceFrac(v.num[1], v.num[2]), v.s \o <<47>>)))
+      [] v.t = "cmp" -> (IF v.parts # <<>> THEN [st |-> "unspec", e |-> QTrue]        \* numbers beyond TLC's integers: C03
+                         ELSE ok(QLeaf(MkAtom(f, "cmp", ReduceFrac(v.num[1], v.num[2]), v.s \o <<47>> \o v.flags))))
       [] v.t = "tspart" -> ok(QLeaf(MkAtom(f, "ts", ReduceFrac(v.num[1], v.num[2]), v.s)))
       [] v.t = "fieldref" -> ok(QLeaf(MkAtom(f, "fref", v.s, v.flags)))
       [] v.t = "qexpr" -> (IF f = <<>> THEN [st |-> "unspec", e |-> QTrue] ELSE ok(QLeaf(MkAtom(f, "qx", v.s, <<>>))))
